@@ -24,7 +24,7 @@ var rawValues = []string{"", "1", "1~10", "a/b", "'/, ,:'", "-", "中", "a=b", "
 	" ", "end ", " x", "\tx\n", "\u3000中\u3000", "x\\", "a=(b"}
 var messages = []string{"\x00none", "m", "ab", "中", "说明文字", "a=b", "x~y(z)/w", "'a,b'", "'需要,同时'", "=", "a|b", "1", "字", "必须大于1", "请听说明", "丽丯乼ħ", "'大,听'", "(x)",
 	// messages that mention the label words themselves: the label is still prepended, exactly once
-	"see explain: at least 1", "字段说明: 不能超过 100", "explain:", "说明:", "explain: twice explain:",
+	"必填，不能为空", "名字、电话", "a，b", "see explain: at least 1", "字段说明: 不能超过 100", "explain:", "说明:", "explain: twice explain:",
 	// white space at the edges of a message is part of the message
 	"must be set ", " m", "\t", "必填\u3000", " ", "ends with a backslash \\",
 	// bracket look-alikes inside a message: "=(" without a closing bracket, a half-open interval
@@ -503,6 +503,9 @@ func run(c *runner.Ctx) {
 	noLoss("blanks", []string{"a", ",", "'", " ", "\t"}, n1-2)
 	noLoss("cjk-low-byte-is-syntax", []string{"a", ",", "'", "大", "听", "丯", "ħ"}, n1-3)
 	noLoss("cjk-low-byte-is-syntax-2", []string{",", "'", "|", "=", "丽", "乼", "Ĭ"}, n1-3)
+	// punctuation that *looks* like the syntax characters (round 14): full-width comma, quote marks, bar, equals sign and
+	// the ideographic comma are ordinary characters of a message
+	noLoss("full-width-look-alikes", []string{"a", ",", "'", "，", "、", "’", "｜", "＝"}, n1-3)
 }
 
 func main() {
